@@ -16,6 +16,9 @@ JOIN, PROTECT, CLEAR, SWAP, USE, SCAN = 1, 2, 3, 4, 5, 6
 NODE = 1000
 
 
+L_REST = 20000     # search mode: byte b of the record of thread t = 20000 + 256 t + b (bytes registered otherwise keep their locs)
+
+
 def parse_case(case):
     v = [int(x) for x in case.split()]
     np_ = v[0]
@@ -85,6 +88,9 @@ def monitor(case, tr, raw):
     """property oracle on an implementation trace (None = fine)."""
     if tr is None:
         return "implementation produced no trace: %s" % (raw or "")[:80]
+    # search mode (RT_CATCHALL=1): accesses to bytes of the object(s) that have no location of their own are
+    # scheduling points, not events of the protocol judged here
+    tr = [e for e in tr if e[1] < L_REST or e[2] in (909, 919)]
     params, progs = parse_case(case)
     if tr == [(-1,)] or (raw or "").strip() == "-1":
         return None
@@ -383,11 +389,12 @@ def search(ctx, exe):
         cases = gen_cases(rng_ctx, "thorough")[:40000]
     finally:
         rng_ctx.cleanup()
-    impl = core.run_sharded([exe], cases)
+    # RT_CATCHALL: every byte of the hazard records is a scheduling point (fields the model does not know included)
+    impl = core.run_sharded(["env", "RT_CATCHALL=1", exe], cases)
     for c, line in zip(cases, impl):
-        why = monitor(c, core.parse_trace(line) if line else None, line)
+        why = core.safe_monitor(monitor, c, core.parse_trace(line) if line else None, line)
         if why:
-            core.report_violation(ctx, "hazard", c, why, line)
+            core.report_violation(ctx, "hazard+catchall", c, why, line)
             if len(ctx.violations) >= 3:
                 break
 
@@ -402,7 +409,7 @@ def corpus(ctx):
 
 
 def replay(ctx, payload):
-    if payload.get("harness") == "mpmc":
+    if str(payload.get("harness", "")).split("+")[0] == "mpmc":
         from vf.props import C13
         return C13.replay(ctx, payload)
     exe = build(ctx)
@@ -410,6 +417,11 @@ def replay(ctx, payload):
     if not exe or not c:
         print("nothing to replay (no concrete case in this file)")
         return 2
+    if str(payload.get("harness", "")).endswith("+catchall"):
+        impl = core.run_sharded(["env", "RT_CATCHALL=1", exe], [c])[0]
+        why = core.safe_monitor(monitor, c, core.parse_trace(impl) if impl is not None else None, impl)
+        print("case:  %s\nimpl (every byte of the object a scheduling point):  %s\nmonitor: %s" % (c, impl, why or "ok"))
+        return 1 if why else 0
     impl = core.run_sharded([exe], [c])[0]
     mod = core.model_run("hazard", [c])[0]
     why = monitor(c, core.parse_trace(impl), impl)
